@@ -58,7 +58,11 @@ def r14_7(ck):
         if c.is_test or 'Serializer' not in [
                 b.name for b in ck.repo.mro(c.name)]:
             continue
-        for mname in ('serialize', 'deserialize', 'can_deserialize'):
+        for mname in sorted(c.methods):
+            # every method but the constructor (helpers of serialize /
+            # deserialize included)
+            if mname == '__init__':
+                continue
             m = c.methods.get(mname)
             if m is None:
                 continue
